@@ -264,8 +264,8 @@ def run(ctx):
                        "the validating regular expression %r in %s is not anchored at both ends: an operand/primary with leading or trailing garbage passes validation" % (pat, p), fn=f, where=prim.site(f, b), how="constant argument")
     ctx.floor("R6", "validating regular expressions", n_re, 4)
     # ---- R7 panic audit --------------------------------------------------------------------------------------------------------
-    audit.run(ctx, "R7", [C.FIND_MAIN], "find")
-    for comp in panic.recursion_cycles(prog, [C.FIND_MAIN]):
+    audit.run(ctx, "R7", [C.FIND_MAIN, "find::main"], "find")
+    for comp in panic.recursion_cycles(prog, [C.FIND_MAIN, "find::main"]):
         names = sorted({prim.short(x) for x in comp})
         kind = "parser" if C.BMT in comp else ("matcher-tree" if all(C.MATCHER_TRAIT in x or "Matcher" in x for x in comp) else "other")
         if kind == "parser":
